@@ -14,7 +14,9 @@ ASSUMPTIONS = [
     "creator (what core.go produces and InsertEvent admits), valid UTF-8 strings; shapes outside are generated too and must "
     "deviate exactly as the model predicts",
 ]
-TRUSTED_EXTRA = ["token printers/parsers harness/cmd/wire/tokens.go and runner/wiredrv.ml (string and key atoms: h<n>, k<n>)",
+TRUSTED_EXTRA = ["W C15 raw-codec-hangs-on-refused-text: ugorji v1.1.7 still does not terminate on U+FFFD (C15_frame_hash_total_refuted, a fact about "
+                 "the library, exercised by direct Frame.Hash calls in child processes); it is a violation only when Frame.ValidateText accepts the frame",
+                 "token printers/parsers harness/cmd/wire/tokens.go and runner/wiredrv.ml (string and key atoms: h<n>, k<n>)",
                  "cases whose frame codec may not terminate run in child processes with a 3 s deadline (HANG0/HANG1)"]
 
 
@@ -24,9 +26,16 @@ def run(ctx):
     rc, out, dt = vlib.run_harness("wire", args, timeout=3000)
     if rc != 0:
         return dict(findings=[dict(cls="harness-crash", key="wire rc=%d" % rc, detail=out[-1500:])], coverage={})
+    # replays on real node cores: the join request with U+FFFD text must be refused / must not stop the
+    # network (F1, fixed by bc8842f); thorough: a node that fast-forwarded over TCP serves readable events (F2, 5bf08c3)
+    for rp in (["ufffd-join", "rewire"] if thorough else ["ufffd-join"]):
+        rc2, out2, _ = vlib.run_harness("wire", ["-seed", ctx["seed"], "-replay", rp], timeout=1200)
+        if rc2 != 0:
+            return dict(findings=[dict(cls="harness-crash", key="wire -replay %s rc=%d" % (rp, rc2), detail=out2[-1500:])], coverage={})
+        out += "\n" + out2
     ncases, diffs, raw = vlib.run_model(out, timeout=3000)
     findings, seen = [], set()
-    stats, shapes, kinds = {}, {}, {}
+    stats, shapes, kinds, wcount, replays = {}, {}, {}, {}, []
     samples = []
     for l in out.splitlines():
         if l.startswith("V C15 "):
@@ -38,6 +47,11 @@ def run(ctx):
             if norm not in seen:
                 seen.add(norm)
                 findings.append(dict(cls=cls, key=detail[:300], detail=l[:600]))
+        elif l.startswith("W C15 "):
+            t = l.split()
+            wcount[t[2]] = wcount.get(t[2], 0) + 1
+        elif l.startswith("Z replay "):
+            replays.append(l[:300])
         elif l.startswith("Z stat "):
             t = l.split()
             stats[t[2]] = int(t[3])
@@ -58,6 +72,7 @@ def run(ctx):
                     "{4 parent combinations} + hostile shapes (foreign/nil validator, invalid UTF-8, U+FFFD); blocks and frames with "
                     "nil/empty/non-empty at every slice, map and pointer level, real blocks/frames of consensus runs; non-trivial = "
                     "distinct shape-product points exercised other than the all-nil ones",
-               samples=samples, histogram=dict(cases_by_kind_and_path=kinds, harness_stats=stats),
+               samples=samples, histogram=dict(cases_by_kind_and_path=kinds, harness_stats=stats, documented_library_facts=wcount),
+               replays_on_real_cores=replays,
                shapes_exercised=len(shapes), traces_validated_against_impl=ncases)
     return dict(findings=findings[:12], coverage=cov, corr_diffs=diffs[:10])
